@@ -189,7 +189,8 @@ theorem posOnlyPrefix_of_all (ps : List (Param V)) (h : ps.all (fun q => !q.isPo
 theorem bindGo_routed (vals : Str → V) (kw : List (Str × V)) (sig : List (Param V))
     (hpre : posOnlyPrefix sig = true)
     (h1 : ∀ p ∈ sig, p.isPosOnly = true → kw.lookup p.name = none)
-    (h2 : ∀ p ∈ sig, p.isPosOnly = false → kw.lookup p.name = some (vals p.name)) :
+    (h2 : ∀ p ∈ sig, p.isPosOnly = false → kw.lookup p.name = some (vals p.name) ∨
+      (kw.lookup p.name = none ∧ p.defaultValue = some (vals p.name))) :
     bindGo sig ((sig.filter (·.isPosOnly)).map (fun p => vals p.name)) kw
       = some (sig.map (fun p => (p.name, vals p.name))) := by
   induction sig with
@@ -197,7 +198,8 @@ theorem bindGo_routed (vals : Str → V) (kw : List (Str × V)) (sig : List (Par
   | cons p ps ih =>
     have h1' : ∀ q ∈ ps, q.isPosOnly = true → kw.lookup q.name = none :=
       fun q hq => h1 q (by simp [hq])
-    have h2' : ∀ q ∈ ps, q.isPosOnly = false → kw.lookup q.name = some (vals q.name) :=
+    have h2' : ∀ q ∈ ps, q.isPosOnly = false → kw.lookup q.name = some (vals q.name) ∨
+        (kw.lookup q.name = none ∧ q.defaultValue = some (vals q.name)) :=
       fun q hq => h2 q (by simp [hq])
     cases hp : p.isPosOnly with
     | true =>
@@ -217,7 +219,9 @@ theorem bindGo_routed (vals : Str → V) (kw : List (Str × V)) (sig : List (Par
       rw [hnil] at ih'
       simp only [List.map_nil] at ih'
       simp only [List.filter, hp, hnil, List.map_nil]
-      cases hk : p.kind <;> simp [bindGo, hk, hl, ih']
+      rcases hl with hl | ⟨hl, hd⟩
+      · cases hk : p.kind <;> simp [bindGo, hk, hl, ih']
+      · cases hk : p.kind <;> simp [bindGo, hk, hl, hd, ih']
 
 theorem names_injective {sig : List (Param V)} (h : sig.Pairwise (fun a b => a.name ≠ b.name))
     {a b : Param V} (ha : a ∈ sig) (hb : b ∈ sig) (hn : a.name = b.name) : a = b := by
@@ -276,7 +280,7 @@ theorem c20_main_args (sig : List (Param V)) (hv : ValidSig sig) (vals : Str →
     subst this
     rw [hpo] at hqp; cases hqp
   · intro p hp hpo
-    exact lookup_map_some _ vals p ((hmem p).mpr ⟨hp, hpo⟩)
+    exact Or.inl (lookup_map_some _ vals p ((hmem p).mpr ⟨hp, hpo⟩))
 
 /-- non-vacuity: `def f(x: int, y: int = 2, /, z: int = 5, *, w: str)` is a legal signature with
     every kind, and defaults in the middle -/
@@ -291,21 +295,7 @@ example : ValidSig exampleSig :=
 
 example : (mainFields exampleSig).map (·.name) = [S "x", S "w", S "y", S "z"] := by decide
 
-/-- the whole run: a legal signature whose set-up succeeds and whose command line parses ends in a
-    call that binds every parameter to its parsed value -/
-theorem c20_main_run (sig : List (Param V)) (hv : ValidSig sig) (d : V)
-    (vals : List (Str × V)) (hs : setup (mainFields sig) = .ok) :
-    ∃ c, mainRun sig (.ok vals) d [] [] = .call c ∧
-      Callables.bind sig c.args c.kwargs = some (sig.map (fun p => (p.name, lookupD vals d p.name))) := by
-  refine ⟨mainCall (mainFields sig) (lookupD vals d) [] [], ?_, c20_main_args sig hv _⟩
-  simp [mainRun, hs]
-
 example : setup (mainFields exampleSig) = .ok := by decide
-
-/-- a rejected command line is rejected by `main` with the same status, and no call is made -/
-theorem c20_main_rejects (sig : List (Param V)) (d : V) (code : Nat)
-    (hs : setup (mainFields sig) = .ok) : mainRun sig (.exit code) d [] [] = .exit code := by
-  simp [mainRun, hs]
 
 /-! ### `only_keep_action_args` and set-up for all supported types -/
 
@@ -357,63 +347,101 @@ def d4Sig : List (Param Nat) :=
   [ { name := S "a", kind := .posOrKw, ann := some .plain, dflt := some (.value 1 false) },
     { name := S "flag", kind := .posOrKw, ann := some .bool, dflt := some (.value 0 false) } ]
 
-theorem autoKeys_plain (p : Param V) : autoKeys (plainField p) = autoKeys (mainField p) := rfl
+/-! #### what `add_argument` depends on: (type class, positional, kind of default, custom keys) -/
 
-/-- the only custom key `main` adds (`help`) is accepted by every action constructor involved and is
-    not `required` -/
-theorem contains_required_help (auto : List Str) :
-    (dedup (auto ++ [S "help"])).contains (S "required") = (dedup (auto ++ [])).contains (S "required") := by
-  rw [Bool.eq_iff_iff]
-  simp only [List.contains_eq_mem, decide_eq_true_eq, mem_dedup, List.mem_append, List.mem_singleton,
-    List.not_mem_nil, or_false]
-  constructor
-  · rintro (h | h)
-    · exact h
-    · exact absurd h (by decide)
-  · intro h; exact Or.inl h
+/-- the four kinds of `dataclasses.Field` default `get_arg_options` distinguishes -/
+inductive DK | missing | litNone | value | factory
+  deriving DecidableEq, Repr
 
-theorem filter_contains_required_help (auto : List Str) (ctor : List Str) (hc : S "required" ∈ ctor) :
-    ((dedup (auto ++ [S "help"])).filter (fun k => ctor.contains k)).contains (S "required")
-      = ((dedup (auto ++ [])).filter (fun k => ctor.contains k)).contains (S "required") := by
-  rw [Bool.eq_iff_iff]
-  simp only [List.contains_eq_mem, decide_eq_true_eq, List.mem_filter, mem_dedup, List.mem_append,
-    List.mem_singleton, List.not_mem_nil, or_false, hc, and_true]
-  constructor
-  · rintro (h | h)
-    · exact h
-    · exact absurd h (by decide)
-  · intro h; exact Or.inl h
+def dkOf : FDefault V → DK
+  | .missing => .missing
+  | .value _ true => .litNone
+  | .value _ false => .value
+  | .factory _ => .factory
 
-theorem any_unknown_help (auto : List Str) :
-    (dedup (auto ++ [S "help"])).any (fun k => !(boolActionCtor.contains k) && !(k == S "action"))
-      = (dedup (auto ++ [])).any (fun k => !(boolActionCtor.contains k) && !(k == S "action")) := by
-  rw [Bool.eq_iff_iff]
-  simp only [List.any_eq_true, mem_dedup, List.mem_append, List.mem_singleton, List.not_mem_nil, or_false]
-  constructor
-  · rintro ⟨k, hk | hk, hb⟩
-    · exact ⟨k, hk, hb⟩
-    · subst hk; exact absurd hb (by decide)
-  · rintro ⟨k, hk, hb⟩; exact ⟨k, Or.inl hk, hb⟩
+/-- a value-free representative of a field -/
+def shapeField (ty : TyClass) (pos : Bool) (dk : DK) (custom : List Str) : Field Unit :=
+  { name := [], ty := ty, positional := pos, custom := custom, help := [],
+    default := match dk with
+      | .missing => .missing
+      | .litNone => .value () true
+      | .value => .value () false
+      | .factory => .factory () }
 
-/-- per field: the synthesised field and the hand-written one meet the same fate in `add_argument`
-    — for every type class (including `bool`), kind and default -/
-theorem addArgument_main_eq_plain (p : Param V) :
+/-- `add_argument` never looks at the name, the help text or the default *value* -/
+theorem addArgument_shape (f : Field V) :
+    addArgument f = addArgument (shapeField f.ty f.positional (dkOf f.default) f.custom) := by
+  obtain ⟨name, ty, default, positional, custom, help, mutable⟩ := f
+  cases default with
+  | missing => rfl
+  | value v n => cases n <;> rfl
+  | factory r => rfl
+
+/-- the closed form of the set-up outcome for the custom keys `main` adds -/
+def shapeDefect (ty : TyClass) (pos : Bool) (dk : DK) : Bool :=
+  pos && !(ty == .choice) && !(ty == .dc) && (ty == .optional || dk == .litNone)
+
+theorem addArgument_shape_closed (ty : TyClass) (pos : Bool) (dk : DK) :
+    (addArgument (shapeField ty pos dk [S "help"]) == .typeError) = shapeDefect ty pos dk ∧
+    (addArgument (shapeField ty pos dk []) == .typeError) = shapeDefect ty pos dk := by
+  cases ty <;> cases pos <;> cases dk <;> decide
+
+/-- **The only set-up failure.** A parameter's option cannot be added to the parser exactly when it
+    is positional-only, not a `Literal`/`choice` nor a dataclass, and either `Optional[...]` or
+    defaulting to the literal `None` (argparse: "'required' is an invalid argument for
+    positionals"). Every other combination of type class (`bool` included), kind and default sets
+    up. -/
+def setupDefect (p : Param V) : Bool :=
+  shapeDefect (annClass p.ann) p.isPosOnly (dkOf (mainDefault p.dflt))
+
+theorem c20_addArgument_closed (p : Param V) :
+    addArgument (mainField p) = .typeError ↔ setupDefect p = true := by
+  rw [addArgument_shape]
+  have h := (addArgument_shape_closed (mainField p).ty (mainField p).positional
+    (dkOf (mainField p).default)).1
+  have hc : (mainField p).custom = [S "help"] := rfl
+  rw [hc]
+  unfold setupDefect
+  have h1 : (mainField p).ty = annClass p.ann := rfl
+  have h2 : (mainField p).positional = p.isPosOnly := rfl
+  have h3 : (mainField p).default = mainDefault p.dflt := rfl
+  rw [h1, h2, h3] at h ⊢
+  rw [← h]
+  cases addArgument (shapeField (annClass p.ann) p.isPosOnly (dkOf (mainDefault p.dflt)) [S "help"]) <;> simp
+
+/-- **The synthesised fields are the hand-written ones (item by item).** For a parameter whose
+    default is not mutable, `main`'s field and the independently written field of the equivalent
+    dataclass agree on name, type class, default (value / factory / missing) and `positional`. -/
+theorem c20_fields_agree (p : Param V) (hm : p.mutableDefault = false) :
+    (mainField p).name = (plainField p).name ∧ (mainField p).ty = (plainField p).ty ∧
+    (mainField p).default = (plainField p).default ∧
+    (mainField p).positional = (plainField p).positional := by
+  obtain ⟨name, kind, ann, dflt, help, mu⟩ := p
+  simp only at hm
+  subst hm
+  refine ⟨rfl, ?_, ?_, ?_⟩
+  · cases ann <;> rfl
+  · cases dflt with
+    | none => rfl
+    | some d => cases d <;> rfl
+  · cases kind <;> rfl
+
+/-- per parameter: the synthesised field and the hand-written one meet the same fate in
+    `add_argument` — for every type class (including `bool`), kind and non-mutable default -/
+theorem addArgument_main_eq_plain (p : Param V) (hm : p.mutableDefault = false) :
     addArgument (mainField p) = addArgument (plainField p) := by
-  unfold addArgument argOptionKeys
-  rw [autoKeys_plain]
-  have hty : (plainField p).ty = (mainField p).ty := rfl
-  have hpos : (plainField p).positional = (mainField p).positional := rfl
-  have hcm : (mainField p).custom = [S "help"] := rfl
-  have hcp : (plainField p).custom = [] := rfl
-  rw [hty, hpos, hcm, hcp]
-  rcases hak : autoKeys (mainField p) with ⟨auto, isBool⟩
-  cases isBool with
-  | false =>
-    simp only [Bool.false_eq_true, if_false, onlyKeepActionArgs, stockCtorArgs]
-    rw [filter_contains_required_help auto _ (by decide)]
-  | true =>
-    simp only [if_true, onlyKeepActionArgs, stockCtorArgs]
-    rw [contains_required_help, any_unknown_help]
+  obtain ⟨_, hty, hd, hpos⟩ := c20_fields_agree p hm
+  rw [addArgument_shape (mainField p), addArgument_shape (plainField p), ← hty, ← hd, ← hpos]
+  have hc : (mainField p).custom = [S "help"] := rfl
+  have hp : (plainField p).custom = [] := rfl
+  rw [hc, hp]
+  have h := addArgument_shape_closed (mainField p).ty (mainField p).positional (dkOf (mainField p).default)
+  generalize addArgument (shapeField (mainField p).ty (mainField p).positional
+    (dkOf (mainField p).default) [S "help"]) = x at h
+  generalize addArgument (shapeField (mainField p).ty (mainField p).positional
+    (dkOf (mainField p).default) []) = y at h
+  obtain ⟨h1, h2⟩ := h
+  cases x <;> cases y <;> simp_all
 
 theorem setup_eq_all (l : List (Field V)) :
     setup l = if l.all (fun f => addArgument f == .ok) then .ok else .typeError := by
@@ -441,11 +469,17 @@ theorem all_partition {α} (key P : α → Bool) (l : List α) :
     · rw [Bool.and_assoc]
     · rw [Bool.and_left_comm]
 
-/-- **All supported types (full statement; D4 repaired in a47a1e0).** `main` adds no set-up
-    failure of its own: for *every* signature — any number of parameters, every type class including
-    `bool`, every kind and default — the class it synthesises can be added to a parser exactly when
-    the equivalent hand-written dataclass can. -/
-theorem c20_all_types (sig : List (Param V)) :
+/-- the named exclusion of finding C20-mutable-default -/
+def NoMutableDefault (sig : List (Param V)) : Prop := ∀ p ∈ sig, p.mutableDefault = false
+
+instance (sig : List (Param V)) : Decidable (NoMutableDefault sig) := by
+  unfold NoMutableDefault; exact List.decidableBAll _ _
+
+/-- **All supported types.** `main` adds no set-up failure of its own: for every signature without
+    a mutable default — any number of parameters, every type class including `bool`, every kind —
+    the class it synthesises can be added to a parser exactly when the (independently written)
+    equivalent dataclass can. -/
+theorem c20_all_types (sig : List (Param V)) (hm : NoMutableDefault sig) :
     setup (mainFields sig) = setup (plainFields sig) := by
   rw [setup_eq_all, setup_eq_all]
   unfold mainFields plainFields
@@ -453,23 +487,133 @@ theorem c20_all_types (sig : List (Param V)) :
     List.all_map, List.all_map]
   have : ∀ p ∈ sig, ((fun f => addArgument f == AddOutcome.ok) ∘ mainField) p
       = ((fun f => addArgument f == AddOutcome.ok) ∘ plainField) p := by
-    intro p _
-    simp only [Function.comp, addArgument_main_eq_plain p]
+    intro p hp
+    simp only [Function.comp, addArgument_main_eq_plain p (hm p hp)]
   rw [all_congr_mem _ _ _ this]
+
+/-- **When set-up succeeds (closed form).** The parser for the synthesised class is built without
+    error for every signature none of whose parameters is a positional-only Optional / `= None`
+    parameter — `bool` parameters, dataclass parameters, every default included. -/
+theorem c20_setup_ok (sig : List (Param V)) (h : ∀ p ∈ sig, setupDefect p = false) :
+    setup (mainFields sig) = .ok := by
+  rw [setup_eq_all]
+  unfold mainFields
+  rw [stableSort_eq_partition, all_partition, List.all_map]
+  have : sig.all ((fun f => addArgument f == AddOutcome.ok) ∘ mainField) = true := by
+    rw [List.all_eq_true]
+    intro p hp
+    have hne : addArgument (mainField p) ≠ .typeError := fun e => by
+      have := (c20_addArgument_closed p).mp e; rw [h p hp] at this; cases this
+    simp only [Function.comp]
+    cases hx : addArgument (mainField p) with
+    | ok => rfl
+    | typeError => exact absurd hx hne
+  rw [this]; rfl
+
+/-- … and conversely a single such parameter makes set-up fail for every command line -/
+theorem c20_setup_fails (sig : List (Param V)) (p : Param V) (hp : p ∈ sig) (hd : setupDefect p = true) :
+    setup (mainFields sig) = .typeError := by
+  rw [setup_eq_all]
+  unfold mainFields
+  rw [stableSort_eq_partition, all_partition, List.all_map]
+  have : sig.all ((fun f => addArgument f == AddOutcome.ok) ∘ mainField) = false := by
+    rw [List.all_eq_false]
+    refine ⟨p, hp, ?_⟩
+    simp [Function.comp, (c20_addArgument_closed p).mpr hd]
+  rw [this]; rfl
 
 /-- regression (D4): `@main def f(a: int = 1, flag: bool = False)` sets up and is called with the
     parsed values; `name` no longer reaches `BooleanOptionalAction`, `help` does and is accepted -/
 example : setup (mainFields d4Sig) = .ok := by decide
+example : ∀ p ∈ d4Sig, setupDefect p = false := by decide
+example : NoMutableDefault d4Sig := by decide
 example : mainRun d4Sig (.ok [(S "a", 1), (S "flag", 0)]) 7 [] []
     = .call { args := [], kwargs := [(S "a", 1), (S "flag", 0)] } := by decide
 example : S "name" ∉ (argOptionKeys (mainField (d4Sig.getD 1 default))).1 ∧
     S "help" ∈ (argOptionKeys (mainField (d4Sig.getD 1 default))).1 := by decide
-/-- the remaining, shared limitation: a positional-only Optional parameter is rejected by argparse
-    (`required` for a positional) for the synthesised class and the hand-written one alike -/
+
+/-! #### full statement, witnesses (open findings) and the partial theorem -/
+
+/-- **Full statement.** A function decorated with `main` whose command line parses is called, with
+    every parameter bound to its parsed value. -/
+def FullMainCalls : Prop :=
+  ∀ (sig : List (Param Nat)), ValidSig sig → ∀ (vals : List (Str × Nat)),
+    (∀ p ∈ sig, (vals.lookup p.name).isSome) →
+    ∃ c, mainRun sig (.ok vals) 0 [] [] = .call c ∧
+      Callables.bind sig c.args c.kwargs = some (sig.map (fun p => (p.name, lookupD vals 0 p.name)))
+
+/-- finding C20-posonly-optional: `def f(o: Optional[int], /)` (also `= None`) -/
 def posOptionalSig : List (Param Nat) :=
   [ { name := S "o", kind := .posOnly, ann := some .optional, dflt := none } ]
-example : setup (mainFields posOptionalSig) = .typeError ∧ setup (plainFields posOptionalSig) = .typeError := by
-  decide
+
+/-- finding C20-mutable-default: `def f(xs: List[int] = [1, 2])` -/
+def mutableSig : List (Param Nat) :=
+  [ { name := S "xs", kind := .posOrKw, ann := some .list, dflt := some (.value 12 false),
+      mutableDefault := true } ]
+
+/-- finding C20-posonly-bool: `def f(flag: bool = False, /)`: set-up succeeds — the failure
+    (NotImplementedError in `BooleanOptionalAction.__call__`) is inside the parse, a parameter of the
+    model -/
+def posBoolSig : List (Param Nat) :=
+  [ { name := S "flag", kind := .posOnly, ann := some .bool, dflt := some (.value 0 false) } ]
+
+theorem c20_posonly_optional_witness :
+    ValidSig posOptionalSig ∧ mainRun posOptionalSig (.ok [(S "o", 3)]) 0 [] [] = .raise (S "TypeError") ∧
+    setup (plainFields posOptionalSig) = .typeError :=
+  ⟨⟨by simp [posOptionalSig], by decide, by decide⟩, by decide, by decide⟩
+
+theorem c20_mutable_default_witness :
+    ValidSig mutableSig ∧ mainRun mutableSig (.ok [(S "xs", 12)]) 0 [] [] = .raise (S "ValueError") ∧
+    setup (plainFields mutableSig) = .ok :=
+  ⟨⟨by simp [mutableSig], by decide, by decide⟩, by decide, by decide⟩
+
+theorem c20_posonly_bool_setup_ok : setup (mainFields posBoolSig) = .ok ∧
+    ∀ e, mainRun posBoolSig (.raise e) 0 [] [] = .raise e := ⟨by decide, fun _ => rfl⟩
+
+/-- **Witness.** The full statement is false for the code as it is (two independent reasons). -/
+theorem c20_main_calls_witness : ¬ FullMainCalls := by
+  intro h
+  obtain ⟨c, hc, _⟩ := h posOptionalSig c20_posonly_optional_witness.1 [(S "o", 3)] (by decide)
+  rw [c20_posonly_optional_witness.2.1] at hc
+  cases hc
+
+theorem mainFields_not_mutable (sig : List (Param V)) (hm : NoMutableDefault sig) :
+    (mainFields sig).any (·.mutable) = false := by
+  rw [List.any_eq_false]
+  intro f hf
+  rw [mainFields_eq] at hf
+  obtain ⟨p, hp, rfl⟩ := List.mem_map.mp hf
+  have := hm p (mem_sortedSig.mp hp)
+  simp [mainField, this]
+
+/-- the whole run, **partial**: a legal signature without a mutable default and without a
+    positional-only Optional / `= None` parameter, whose command line parses (every parameter has a
+    parsed value), ends in exactly the call that binds every parameter to its parsed value -/
+theorem c20_main_run (sig : List (Param V)) (hv : ValidSig sig) (d : V)
+    (vals : List (Str × V)) (hm : NoMutableDefault sig) (hs : ∀ p ∈ sig, setupDefect p = false)
+    (hcov : ∀ p ∈ sig, ∃ v, vals.lookup p.name = some v) :
+    ∃ c, mainRun sig (.ok vals) d [] [] = .call c ∧
+      ∀ p ∈ sig, ∃ v, vals.lookup p.name = some v ∧
+        (Callables.bind sig c.args c.kwargs).map (fun b => b.lookup p.name) = some (some v) := by
+  have hmut := mainFields_not_mutable sig hm
+  refine ⟨mainCall (mainFields sig) (lookupD vals d) [] [], ?_, ?_⟩
+  · simp [mainRun, hmut, c20_setup_ok sig hs]
+  · intro p hp
+    obtain ⟨v, hv'⟩ := hcov p hp
+    refine ⟨v, hv', ?_⟩
+    rw [c20_main_args sig hv]
+    simp only [Option.map_some]
+    congr 1
+    have : lookupD vals d p.name = v := by simp [lookupD, hv']
+    rw [← this]
+    exact lookup_map_some sig (lookupD vals d) p hp
+
+example : NoMutableDefault exampleSig ∧ (∀ p ∈ exampleSig, setupDefect p = false) := by decide
+
+/-- a rejected command line is rejected by `main` with the same status, and no call is made -/
+theorem c20_main_rejects (sig : List (Param V)) (d : V) (code : Nat) (hm : NoMutableDefault sig)
+    (hs : ∀ p ∈ sig, setupDefect p = false) : mainRun sig (.exit code) d [] [] = .exit code := by
+  simp [mainRun, mainFields_not_mutable sig hm, c20_setup_ok sig hs]
 
 /-! ### the cache of `config_for` -/
 
@@ -538,6 +682,28 @@ theorem c20_cached (st : CacheState) (k : CacheKey) (hk : k.hashable = true) (ks
 theorem c20_unhashable_fresh (st : CacheState) (k : CacheKey) (hk : k.hashable = false) :
     (cachedCall st k).1 = st.next ∧ (cachedCall st k).2.next = st.next + 1 := by
   simp [cachedCall, hk]
+
+/-- the reading of "the same callable": `lru_cache` keys on the *spelling* of the call — the same
+    callable asked for with `frozen=True`, with `ignore_args="b"` instead of `("b",)`, or with the
+    `**defaults` in another order gets a different class object each (named exclusion: identity is
+    claimed for identically written calls only) -/
+theorem c20_cache_spelling_witness :
+    (runCalls {} [ { target := 0, ignore := .absent, frozen := none, defaults := [] },
+                   { target := 0, ignore := .absent, frozen := some true, defaults := [] },
+                   { target := 0, ignore := .str (S "b"), frozen := none, defaults := [] },
+                   { target := 0, ignore := .tuple [S "b"], frozen := none, defaults := [] },
+                   { target := 0, ignore := .absent, frozen := none, defaults := [(S "b", S "3"), (S "c", S "1")] },
+                   { target := 0, ignore := .absent, frozen := none, defaults := [(S "c", S "1"), (S "b", S "3")] } ]).1
+      = [0, 1, 2, 3, 4, 5] := by decide
+
+/-- finding C20-cache-untyped-key: the cache key holds `**defaults` values up to Python `==`
+    (`lru_cache(typed=False)`): `b=1`, `b=1.0`, `b=True` are one key (here: one equality class
+    `num:1`), so the class derived for the first spelling — with *its* default — is returned for
+    the others -/
+theorem c20_cache_conflation_witness :
+    (runCalls {} [ { target := 0, ignore := .absent, frozen := none, defaults := [(S "b", S "num:1")] },
+                   { target := 0, ignore := .absent, frozen := none, defaults := [(S "b", S "num:1")] } ]).1
+      = [0, 0] := by decide
 
 example : (runCalls {} [ { target := 0, ignore := .tuple [S "a"], frozen := none, defaults := [] },
                          { target := 0, ignore := .absent, frozen := none, defaults := [] },
@@ -661,14 +827,65 @@ theorem keys_dictUpdate (d kw : List (Str × V)) :
           exact Or.inr ⟨(k, v), by simp, hk⟩
     · exact Or.inr ⟨e', by simp [he'], hk⟩
 
-/-- **Calling the parsed object.** For a target without positional-only parameters: if every
-    keyword names a parameter and every parameter gets a value from the explicit kwargs or else
-    from the parsed fields, the target is invoked with exactly those values (explicit kwargs
-    winning), whatever the number of parameters. -/
+/-- the named exclusion of finding C20-partial-posonly -/
+def NoPosOnly (sig : List (Param V)) : Prop := ∀ p ∈ sig, p.isPosOnly = false
+
+instance (sig : List (Param V)) : Decidable (NoPosOnly sig) := by
+  unfold NoPosOnly; exact List.decidableBAll _ _
+
+/-- what a parameter ends up with when the parsed object is called: the explicit keyword if there
+    is one, else the parsed field value, else (an ignored / skipped parameter) the callee's own
+    default -/
+def CallValue (fv kw : List (Str × V)) (p : Param V) (v : V) : Prop :=
+  orElse' (lastLookup kw p.name) (fv.lookup p.name) = some v ∨
+  (orElse' (lastLookup kw p.name) (fv.lookup p.name) = none ∧ p.defaultValue = some v)
+
+/-- **Full statement.** Calling the parsed object invokes the target with exactly those values:
+    whenever every keyword names a parameter and every parameter has a `CallValue`, the call binds
+    every parameter to it. -/
+def FullPartialCall : Prop :=
+  ∀ (sig : List (Param Nat)) (fv kw : List (Str × Nat)) (w : Str → Nat),
+    sig.Pairwise (fun a b => a.name ≠ b.name) → posOnlyPrefix sig = true →
+    (∀ e ∈ fv, ∃ p ∈ sig, p.name = e.1) → (∀ e ∈ kw, ∃ p ∈ sig, p.name = e.1) →
+    (∀ p ∈ sig, CallValue fv kw p (w p.name)) →
+    Callables.bind sig (partialCall fv [] kw).args (partialCall fv [] kw).kwargs
+      = some (sig.map (fun p => (p.name, w p.name)))
+
+/-- finding C20-partial-posonly: `def f(a: int, /, b: int = 2)`, parsed `a=7` -/
+def posOnlyTarget : List (Param Nat) :=
+  [ { name := S "a", kind := .posOnly, ann := some .plain, dflt := none },
+    { name := S "b", kind := .posOrKw, ann := some .plain, dflt := some (.value 2 false) } ]
+
+/-- **Witness.** `Partial.__call__` passes every field by keyword, so a target with a
+    positional-only parameter cannot be called: CPython raises TypeError (`bind = none`). -/
+theorem c20_partial_posonly_witness :
+    Callables.bind posOnlyTarget (partialCall [(S "a", 7), (S "b", 2)] [] []).args
+      (partialCall [(S "a", (7 : Nat)), (S "b", 2)] [] []).kwargs = none := by decide
+
+theorem c20_partial_call_full_witness : ¬ FullPartialCall := by
+  intro h
+  have := h posOnlyTarget [(S "a", 7), (S "b", 2)] [] (fun n => if n = S "a" then 7 else 2)
+    (by simp [posOnlyTarget, S]) (by decide)
+    (by intro e he; simp only [List.mem_cons, List.not_mem_nil, or_false] at he
+        rcases he with rfl | rfl
+        · exact ⟨{ name := S "a", kind := .posOnly, ann := some .plain, dflt := none },
+            by simp [posOnlyTarget], rfl⟩
+        · exact ⟨{ name := S "b", kind := .posOrKw, ann := some .plain, dflt := some (.value 2 false) },
+            by simp [posOnlyTarget], rfl⟩)
+    (by intro e he; cases he)
+    (by intro p hp; simp only [posOnlyTarget, List.mem_cons, List.not_mem_nil, or_false] at hp
+        rcases hp with rfl | rfl <;> exact Or.inl (by decide))
+  rw [c20_partial_posonly_witness] at this
+  cases this
+
+/-- **Calling the parsed object (partial: `NoPosOnly`).** For a target without positional-only
+    parameters: if every keyword names a parameter and every parameter has a `CallValue` — the
+    explicit keyword, else the parsed field, else (ignored or skipped parameters) its own default —
+    the target is invoked with exactly those values, whatever the number of parameters. -/
 theorem c20_partial_call (sig : List (Param V)) (fv kw : List (Str × V)) (w : Str → V)
-    (hno : ∀ p ∈ sig, p.isPosOnly = false)
+    (hno : NoPosOnly sig)
     (hfv : ∀ e ∈ fv, ∃ p ∈ sig, p.name = e.1) (hkw : ∀ e ∈ kw, ∃ p ∈ sig, p.name = e.1)
-    (hcover : ∀ p ∈ sig, orElse' (lastLookup kw p.name) (fv.lookup p.name) = some (w p.name)) :
+    (hcover : ∀ p ∈ sig, CallValue fv kw p (w p.name)) :
     Callables.bind sig (partialCall fv [] kw).args (partialCall fv [] kw).kwargs
       = some (sig.map (fun p => (p.name, w p.name))) := by
   have hallowed : kwAllowed sig (partialCall fv ([] : List V) kw).kwargs = true := by
@@ -697,13 +914,21 @@ theorem c20_partial_call (sig : List (Param V)) (fv kw : List (Str × V)) (w : S
   rw [hallowed]
   simpa [partialCall] using key
 
-/-- non-vacuity: `def tgt(a, b=2, *, c)`, fields `b=7` (parsed), explicit `a=1, c=3, b=9` -/
-example : Callables.bind
-      ([ { name := S "a", kind := .posOrKw, ann := none, dflt := none },
-         { name := S "b", kind := .posOrKw, ann := none, dflt := some (.value 2 false) },
-         { name := S "c", kind := .kwOnly, ann := none, dflt := none } ] : List (Param Nat))
+/-- non-vacuity: `def tgt(a, b=2, *, c, d=4)`, fields `b=7` (parsed), explicit `a=1, c=3, b=9`;
+    `d` is an ignored parameter and keeps its own default -/
+def partialTarget : List (Param Nat) :=
+  [ { name := S "a", kind := .posOrKw, ann := none, dflt := none },
+    { name := S "b", kind := .posOrKw, ann := none, dflt := some (.value 2 false) },
+    { name := S "c", kind := .kwOnly, ann := none, dflt := none },
+    { name := S "d", kind := .kwOnly, ann := none, dflt := some (.value 4 false) } ]
+
+example : NoPosOnly partialTarget := by decide
+example : Callables.bind partialTarget
       [] (partialCall [(S "b", 7)] [] [(S "a", 1), (S "c", 3), (S "b", 9)]).kwargs
-    = some [(S "a", 1), (S "b", 9), (S "c", 3)] := by decide
+    = some [(S "a", 1), (S "b", 9), (S "c", 3), (S "d", 4)] := by decide
+example : CallValue [(S "b", (7 : Nat))] [(S "a", 1), (S "c", 3), (S "b", 9)]
+    { name := S "d", kind := .kwOnly, ann := none, dflt := some (.value 4 false) } 4 :=
+  Or.inr (by decide)
 
 /-! ### `config_for`: one field per non-ignored, typed parameter -/
 
@@ -713,9 +938,10 @@ def candidate (classAnn ignore : List Str) (ov : List (Str × V × Shape)) (p : 
     Option (CField V) :=
   if ignore.contains p.name then none
   else if p.annotated || classAnn.contains p.name then
-    some { name := p.name, default := (effDefault ov p).map (·.1) }
+    some { name := p.name, default := (effDefault ov p).map (·.1),
+           mutable := match effDefault ov p with | some (_, sh) => mutableShape sh | none => false }
   else match effDefault ov p with
-    | some (v, _) => some { name := p.name, default := some v }
+    | some (v, sh) => some { name := p.name, default := some v, mutable := mutableShape sh }
     | none => none
 
 /-- no untyped parameter has a default whose type cannot be inferred (else NotImplementedError) -/
@@ -755,7 +981,7 @@ theorem configLoop_exact (classAnn ignore : List Str) (ov : List (Str × V × Sh
           exact ⟨fs, h1, by simp [h2]⟩
         | some d =>
           obtain ⟨v, sh⟩ := d
-          obtain ⟨fs, h1, h2⟩ := ih (acc ++ [{ name := p.name, default := some v }]) hinf'
+          obtain ⟨fs, h1, h2⟩ := ih (acc ++ [{ name := p.name, default := some v, mutable := mutableShape sh }]) hinf'
           exact ⟨fs, h1, by simp [h2]⟩
       | false =>
         have ha : p.annotated = false := (Bool.or_eq_false_iff.mp hty).1
@@ -772,23 +998,68 @@ theorem configLoop_exact (classAnn ignore : List Str) (ov : List (Str × V × Sh
           have htyped : typedOf classAnn p (some (v, sh)) = .yes := by
             simp only [typedOf, ha, hc, hi, Bool.false_eq_true, if_false, if_true]
           simp only [htyped, candidate, hig, hty, he, Bool.false_eq_true, if_false]
-          obtain ⟨fs, h1, h2⟩ := ih (acc ++ [{ name := p.name, default := some v }]) hinf'
+          obtain ⟨fs, h1, h2⟩ := ih (acc ++ [{ name := p.name, default := some v, mutable := mutableShape sh }]) hinf'
           exact ⟨fs, h1, by simp [h2]⟩
 
-/-- **Exact shape of the derived class.** `config_for` succeeds and its fields are: the required
-    candidates in reverse signature order (the code inserts them at the front), then the optional
-    candidates in signature order. -/
-theorem c20_config_fields (classAnn ignore : List Str) (ov : List (Str × V × Shape))
+/-- the list handed to `make_dataclass`, exactly: the required candidates in reverse signature
+    order (the code inserts them at the front), then the optional candidates in signature order -/
+theorem configFields_exact (classAnn ignore : List Str) (ov : List (Str × V × Shape))
     (sig : List (CParam V)) (hinf : Inferable classAnn ignore ov sig) :
-    configFor classAnn ignore ov sig = .ok
+    configFields classAnn ignore ov sig = .ok
       (((sig.filterMap (candidate classAnn ignore ov)).filter (·.default.isNone)).reverse
         ++ (sig.filterMap (candidate classAnn ignore ov)).filter (·.default.isSome)) := by
   obtain ⟨fs, h1, h2⟩ := configLoop_exact classAnn ignore ov sig [] hinf
-  unfold configFor
+  unfold configFields
   rw [h1, h2]; simp
 
-/-- **One option per non-ignored parameter, with the signature's default.** Every field of the
-    derived class comes from exactly the candidates: same multiset size, same members; each carries
+/-- no field candidate has a default of an unhashable class (named exclusion of finding
+    C20-mutable-default on the `config_for` side) -/
+def NoMutableCfg (classAnn ignore : List Str) (ov : List (Str × V × Shape)) (sig : List (CParam V)) : Prop :=
+  ∀ p ∈ sig, ∀ f, candidate classAnn ignore ov p = some f → f.mutable = false
+
+theorem configFor_ok_iff (classAnn ignore : List Str) (ov : List (Str × V × Shape))
+    (sig : List (CParam V)) (fs : List (CField V)) :
+    configFor classAnn ignore ov sig = .ok fs ↔
+      (configFields classAnn ignore ov sig = .ok fs ∧ fs.any (·.mutable) = false) := by
+  unfold configFor
+  cases h : configFields classAnn ignore ov sig with
+  | ok fs' =>
+    cases hm : fs'.any (·.mutable) with
+    | true =>
+      simp only [hm, if_true]
+      constructor
+      · intro e; cases e
+      · rintro ⟨e, hf⟩; injection e with e; subst e; rw [hm] at hf; cases hf
+    | false =>
+      simp only [hm, Bool.false_eq_true, if_false]
+      constructor
+      · intro e; injection e with e; subst e; exact ⟨rfl, hm⟩
+      · rintro ⟨e, _⟩; exact e
+  | notImplemented => simp
+  | mutableDefault => simp
+  | docError o => simp
+
+/-- **Exact shape of the derived class (partial: `Inferable`, `NoMutableCfg`).** `config_for`
+    succeeds and its fields are: the required candidates in reverse signature order, then the
+    optional candidates in signature order. -/
+theorem c20_config_fields (classAnn ignore : List Str) (ov : List (Str × V × Shape))
+    (sig : List (CParam V)) (hinf : Inferable classAnn ignore ov sig)
+    (hnm : NoMutableCfg classAnn ignore ov sig) :
+    configFor classAnn ignore ov sig = .ok
+      (((sig.filterMap (candidate classAnn ignore ov)).filter (·.default.isNone)).reverse
+        ++ (sig.filterMap (candidate classAnn ignore ov)).filter (·.default.isSome)) := by
+  rw [configFor_ok_iff]
+  refine ⟨configFields_exact classAnn ignore ov sig hinf, ?_⟩
+  rw [List.any_eq_false]
+  intro f hf
+  have hf' : f ∈ sig.filterMap (candidate classAnn ignore ov) := by
+    simp only [List.mem_append, List.mem_reverse, List.mem_filter] at hf
+    rcases hf with h | h <;> exact h.1
+  obtain ⟨p, hp, hc⟩ := List.mem_filterMap.mp hf'
+  simp [hnm p hp f hc]
+
+/-- **One option per non-ignored parameter, with the signature's default.** Whenever `config_for`
+    returns a class: its fields are exactly the candidates (same number, same members); each carries
     the override / signature default of a non-ignored parameter of that name, and no ignored
     parameter yields a field. -/
 theorem c20_config_options (classAnn ignore : List Str) (ov : List (Str × V × Shape))
@@ -798,7 +1069,8 @@ theorem c20_config_options (classAnn ignore : List Str) (ov : List (Str × V × 
     (∀ f, f ∈ fs ↔ f ∈ sig.filterMap (candidate classAnn ignore ov)) ∧
     (∀ f ∈ fs, ∃ p ∈ sig, f.name = p.name ∧ ignore.contains p.name = false ∧
         f.default = (effDefault ov p).map (·.1)) := by
-  rw [c20_config_fields classAnn ignore ov sig hinf] at h
+  have h := ((configFor_ok_iff classAnn ignore ov sig fs).mp h).1
+  rw [configFields_exact classAnn ignore ov sig hinf] at h
   injection h with h
   subst h
   have hmem : ∀ f, f ∈ ((sig.filterMap (candidate classAnn ignore ov)).filter (·.default.isNone)).reverse
@@ -830,6 +1102,64 @@ theorem c20_config_options (classAnn ignore : List Str) (ov : List (Str × V × 
         · rename_i v sh he
           injection hc with hc; subst hc; exact ⟨rfl, rfl, by simp [he]⟩
         · cases hc
+
+/-- **Derive, parse, call (composition).** For a callable without positional-only parameters whose
+    config class `config_for` derives (fields `fs`): whatever values the parse puts into the fields,
+    calling the parsed object with explicit keywords `kw` binds every parameter to its `CallValue`
+    — the field keys are parameter names by `c20_config_options`, so only the keywords and the
+    coverage of the non-field (ignored / skipped) parameters remain as hypotheses. -/
+theorem c20_config_then_call (sig : List (Param V)) (csig : List (CParam V))
+    (hsame : csig.map (·.name) = sig.map (·.name))
+    (classAnn ignore : List Str) (ov : List (Str × V × Shape)) (fs : List (CField V))
+    (h : configFor classAnn ignore ov csig = .ok fs) (hinf : Inferable classAnn ignore ov csig)
+    (hno : NoPosOnly sig) (vals : Str → V) (kw : List (Str × V)) (w : Str → V)
+    (hkw : ∀ e ∈ kw, ∃ p ∈ sig, p.name = e.1)
+    (hcover : ∀ p ∈ sig, CallValue (fs.map (fun f => (f.name, vals f.name))) kw p (w p.name)) :
+    Callables.bind sig (partialCall (fs.map (fun f => (f.name, vals f.name))) [] kw).args
+        (partialCall (fs.map (fun f => (f.name, vals f.name))) [] kw).kwargs
+      = some (sig.map (fun p => (p.name, w p.name))) := by
+  apply c20_partial_call sig _ kw w hno _ hkw hcover
+  intro e he
+  obtain ⟨f, hf, rfl⟩ := List.mem_map.mp he
+  obtain ⟨cp, hcp, hn, _⟩ := (c20_config_options classAnn ignore ov csig fs h hinf).2.2 f hf
+  have : cp.name ∈ sig.map (·.name) := by rw [← hsame]; exact List.mem_map.mpr ⟨cp, hcp, rfl⟩
+  obtain ⟨p, hp, hpn⟩ := List.mem_map.mp this
+  exact ⟨p, hp, by simp [hpn, hn]⟩
+
+/-! #### full statement and witnesses for `config_for` -/
+
+/-- **Full statement.** `config_for` derives a class with one field per parameter of the callable. -/
+def ConfigFull : Prop :=
+  ∀ sig : List (CParam Nat), ∃ fs, configFor [] [] [] sig = .ok fs ∧ fs.map (·.name) = sig.map (·.name)
+
+/-- `def f(a: int, b=None)`: the type of `b` cannot be inferred → NotImplementedError for the whole
+    callable (partial.py:221) -/
+theorem c20_config_none_default_witness :
+    configFor [] [] [] ([ { name := S "a", annotated := true, dflt := none },
+      { name := S "b", annotated := false, dflt := some (0, .other) } ] : List (CParam Nat))
+      = .notImplemented := by rfl
+
+/-- finding C20-mutable-default: `def f(xs=[1, 2])` / `def f(xs: List[int] = [1, 2])` → ValueError
+    from `make_dataclass` although the type is inferable / annotated -/
+theorem c20_config_mutable_witness :
+    configFor [] [] [] ([ { name := S "xs", annotated := false, dflt := some (12, .list [.int, .int]) } ]
+      : List (CParam Nat)) = .mutableDefault ∧
+    configFor [] [] [] ([ { name := S "xs", annotated := true, dflt := some (12, .list [.int, .int]) } ]
+      : List (CParam Nat)) = .mutableDefault ∧
+    inferable (.list [.int, .int]) = true := ⟨by rfl, by rfl, by rfl⟩
+
+/-- `def f(a, b: int = 1)`: the untyped parameter without default is dropped (with a warning) -/
+theorem c20_config_untyped_dropped :
+    configFor [] [] [] ([ { name := S "a", annotated := false, dflt := none },
+      { name := S "b", annotated := true, dflt := some (1, .int) } ] : List (CParam Nat))
+      = .ok [ { name := S "b", default := some 1 } ] := by rfl
+
+theorem c20_config_full_witness : ¬ ConfigFull := by
+  intro h
+  obtain ⟨fs, hfs, _⟩ := h [ { name := S "a", annotated := true, dflt := none },
+      { name := S "b", annotated := false, dflt := some (0, .other) } ]
+  rw [c20_config_none_default_witness] at hfs
+  cases hfs
 
 /-- non-vacuity: `def tgt(a, b: int, c=2.5, *, d="s", e: str)` with `ignore_args="d"`, override
     `c=9`: `a` is skipped (no type), `d` ignored; required `e`, `b` come first (reversed). -/
@@ -897,6 +1227,13 @@ theorem c20_help_unique_class (initE classE : List (Str × Str)) (name h : Str)
     (hi : helpEntries initE name = []) (hu : helpEntries classE name = [h]) :
     pickHelp initE classE name = some h := by
   simp [pickHelp, hi, hu]
+
+/-- finding C20-help-prefix-match (partial.py:174-178 matches `k.startswith(name)`): an
+    undocumented parameter `b` takes the text of `beta`; with both documented the result is the
+    `pop()` of a two-element set, i.e. it depends on the hash seed (`none` in the model) -/
+theorem c20_help_prefix_witness :
+    pickHelp [] [(S "beta", S "the beta text")] (S "b") = some (S "the beta text") ∧
+    pickHelp [] [(S "b", S "the b text"), (S "beta", S "the beta text")] (S "b") = none := by decide
 
 example : parseArgsDoc "R.\n\n Args:\n     s: 1:2\n         or 3:4\n     m (str): one of: a, b\n\n Returns:\n     d: x\n ".toList
     = .ok [(S "s", S "1:2 or 3:4"), (S "m (str)", S "one of: a, b")] := by
